@@ -116,16 +116,21 @@ def r2(ctx: Context, sites) -> None:
             txt = ast.unparse(gb.node)
             cand = any(isinstance(n, ast.Assign) and isinstance(n.value, ast.Call) and call_name(n.value) == "list" and n.value.args and self_attr(n.value.args[0]) == "_ready" for n in walk_no_nested(gb.node))
             ctx.add("R2", f"{gb.qualname}::candidates-from-ready-set", cand, gb.loc(), "" if cand else "candidates are not a snapshot of the maintained ready set")
-            ifs = [n for n in walk_no_nested(gb.node) if isinstance(n, ast.If) and "is_available_for_run()" in ast.unparse(n.test)]
-            o = bool(ifs) and any(isinstance(x, ast.Yield) for x in ast.walk(ifs[0])) if ifs else False
+            from ..flow import conditions_at
+
+            gcfg, gpm = func_cfg(ctx.repo, gb), parent_map(gb.node)
+
+            def avail(node) -> bool:
+                return any(isinstance(c_, ast.Call) and call_name(c_) == "is_available_for_run" for c_ in conditions_at(gcfg, gb.node, node, gpm))
+
+            yields = [n for n in walk_no_nested(gb.node) if isinstance(n, (ast.Yield, ast.YieldFrom))]
+            o = bool(yields) and all(avail(y) for y in yields)
             ctx.add("R2", f"{gb.qualname}::available-status-filter", o, gb.loc(), "" if o else "ids are yielded without the is_available_for_run() filter")
-            o = False
-            if ifs:
-                body = ifs[0].body
-                dec = [i for i, st in enumerate(body) if isinstance(st, ast.AugAssign) and isinstance(st.op, ast.Sub) and ast.unparse(st.target) == gb.params[1]]
-                stop = [n for n in ast.walk(ifs[0]) if isinstance(n, ast.If) and gb.params[1] in ast.unparse(n.test) and any(isinstance(x, ast.Return) for x in n.body)]
-                outside = [n for n in walk_no_nested(gb.node) if isinstance(n, ast.AugAssign) and ast.unparse(n.target) == gb.params[1] and not any(x is n for x in ast.walk(ifs[0]))]
-                o = bool(dec) and bool(stop) and not outside
+            # the limit counts yields only: every decrement of the quota happens under the availability condition, and a test of
+            # the quota ends the iteration
+            decs = [n for n in walk_no_nested(gb.node) if isinstance(n, ast.AugAssign) and isinstance(n.op, ast.Sub) and ast.unparse(n.target) == gb.params[1]]
+            stop = [n for n in walk_no_nested(gb.node) if isinstance(n, (ast.Return, ast.Break)) and any(isinstance(c_, ast.Compare) and gb.params[1] in names_in(c_) for c_ in conditions_at(gcfg, gb.node, n, gpm))]
+            o = bool(decs) and all(avail(d_) for d_ in decs) and bool(stop)
             ctx.add("R2", f"{gb.qualname}::limit-after-filters", o, gb.loc(), "" if o else "the limit is consumed by ids that are filtered out (or never stops the iteration)")
             # the ready set definition: added when waited and not waiting; removed when it starts waiting / is released
             # (matched structurally: receivers by store attribute, arguments by role, not by variable name)
@@ -150,13 +155,10 @@ def r2(ctx: Context, sites) -> None:
                 return out
 
             def guarded_by(fn, node, pred):
-                pm_ = parent_map(fn.node)
-                cur = pm_.get(id(node))
-                while cur is not None:
-                    if isinstance(cur, ast.If) and pred(cur.test) and any(x is node for st in cur.body for x in ast.walk(st)):
-                        return True
-                    cur = pm_.get(id(cur))
-                return False
+                # the condition holds on every path to the node, however the branches are written
+                from ..flow import conditions_at
+
+                return any(pred(c_) for c_ in conditions_at(func_cfg(ctx.repo, fn), fn.node, node, parent_map(fn.node)))
 
             ready_add = store_call(wfr, "add", "_ready", None, V)
             o = bool(ready_add) and all(guarded_by(wfr, c_, lambda t: isinstance(t, ast.Compare) and isinstance(t.ops[0], ast.NotIn) and names_in(t.left) & V and self_attr(t.comparators[0]) == "waiting_for") for c_ in ready_add) and bool(store_call(wfr, "discard", "_ready", None, W))
